@@ -146,8 +146,13 @@ class C10(Check):
                 # objects that sit BEHIND plain values in a list, and lists nested in lists
                 rules.append(('rule', 'SeqMixed', None, ('seq', [('opt', ('lit', 'a')), ('ref', 'KA'),
                                                                   ('seq', [('opt', ('lit', 'b')), ('opt', ('ref', 'KA'))])])))
+                # a class without visible fields: its instances are still distinct objects, each with its own span
+                rules.append(('class', 'KE', None, [('pass', None, ('ref', 'R0'))]))
+                rules.append(('rule', 'SeqE', None, ('seq', [('opt', ('expect', ('right', ('ref', 'R0'), ('ref', 'KE')))),
+                                                              ('rep', ('ref', 'KE'), 1, 3)])))
                 rules.append(('class', 'Start', None, [('field', 'b', ('ref', 'KB')), ('field', 'again', ('opt', ('ref', 'KA'))),
-                                                      ('field', 'm', ('opt', ('ref', 'SeqMixed')))]))
+                                                      ('field', 'm', ('opt', ('ref', 'SeqMixed'))),
+                                                      ('field', 'e', ('opt', ('ref', 'SeqE')))]))
                 g = g.copy(rules=rules)
             # blanks, newlines and other characters that str.splitlines() - but not the statement -
             # treats as line boundaries (they are ordinary ignorable characters here)
@@ -171,7 +176,9 @@ class C10(Check):
                 return
             res.hist['grammars_rich' if rich else 'grammars_core'] += 1
             bt = any(x[0] in ('backtrack', 'expect', 'expectnot') for r in g.rules for e in peg.rule_exprs(r) for x in peg.walk(e))
-            entries = [e for e in gens_rich.entry_points(g) if e[0] in 'KFSs' or e.startswith('R')][:8]
+            entries = [e for e in gens_rich.entry_points(g) if e[0] in 'KFSs' or e.startswith('R')]
+            # (compound entry points first: the cut must not drop them)
+            entries = sorted(entries, key=lambda e: (e not in ('Start', 'SeqE', 'SeqMixed'), e.startswith('R')))[:8]
             for name in entries:
                 fn = getattr(mod, name).parse
                 for i, t in enumerate(texts):
